@@ -48,9 +48,12 @@ func (cs *coreState) dataSites() []dataSite {
 
 const primaryGetKey = "getkey(schema=field:Table.KeySchema attrs=field:Table.AttributesDef)"
 
-func keyOriginAllowed(o string, searchPath bool) bool {
+func keyOriginAllowed(o string, searchPath bool, kind string) bool {
 	if o == primaryGetKey {
 		return true
+	}
+	if kind == "read" && o == "elem-of field:Table.SortedKeys" {
+		return true // iterating the table's own key list: under I1 every element is a key of Data
 	}
 	if !searchPath {
 		return false
@@ -64,11 +67,11 @@ func keyOriginAllowed(o string, searchPath bool) bool {
 
 func init() {
 	register(&Prop{
-		ID:    "C01",
-		Title: "Single-item operations behave as a sequential key-to-item map",
-		Decided: "the representation invariant I1 (SortedKeys is exactly the sorted key set of Data) is preserved by every mutator on every path, and every access to Data uses the table's own key derivation: (R1) only core functions write Table.Data/SortedKeys after construction and each of them is a checked mutator; (R2) path-case analysis of each mutator: net change of Data[k] (absent→present, present→absent, overwrite) is matched by exactly the corresponding insertion (followed by a sort) or binary-search removal of k in SortedKeys, presence being established by a comma-ok lookup of the same key before the change; reset resets both; (R3) the key operand of every Data lookup/update/delete derives from keySchema.GetKey(t.KeySchema, t.AttributesDef, ·) of the same table (or, on the search path, from SortedKeys/index entries); (R4) the map stored under a key is a fresh copy (or the map already stored there), never a caller's map; (R5) UpdateItem on an absent key starts from a copy of the request key; (R7) GetItem's output derives from Data[key] with key derived from the request key, through conversion/copy only. By induction over histories I1 holds in every reachable state, which is what makes GetItem/Scan/ItemCount agree.",
+		ID:         "C01",
+		Title:      "Single-item operations behave as a sequential key-to-item map",
+		Decided:    "the representation invariant I1 (SortedKeys is exactly the sorted key set of Data) is preserved by every mutator on every path, and every access to Data uses the table's own key derivation: (R1) only core functions write Table.Data/SortedKeys after construction and each of them is a checked mutator; (R2) path-case analysis of each mutator: net change of Data[k] (absent→present, present→absent, overwrite) is matched by exactly the corresponding insertion (followed by a sort) or binary-search removal of k in SortedKeys, presence being established by a comma-ok lookup of the same key before the change; reset resets both; (R3) the key operand of every Data lookup/update/delete derives from keySchema.GetKey(t.KeySchema, t.AttributesDef, ·) of the same table (or, on the search path, from SortedKeys/index entries); (R4) the map stored under a key is a fresh copy (or the map already stored there), never a caller's map; (R5) UpdateItem on an absent key starts from a copy of the request key; (R7) GetItem's output derives from Data[key] with key derived from the request key, through conversion/copy only. By induction over histories I1 holds in every reachable state, which is what makes GetItem/Scan/ItemCount agree.",
 		NotDecided: "contents of items after an update (C07), injectivity of the key encoding (C13), value-level equality of returned items (C10), ownership below the top-level map (C14).",
-		Assumes: []string{"I1 is assumed at function entry when discharging a mutator (induction hypothesis); the branch 'binary search did not find a key that a lookup just found' is infeasible under I1 and dropped"},
+		Assumes:    []string{"I1 is assumed at function entry when discharging a mutator (induction hypothesis); the branch 'binary search did not find a key that a lookup just found' is infeasible under I1 and dropped"},
 		Rules: []RuleDef{
 			{ID: "R1", Desc: "who-may-write Table.Data / Table.SortedKeys (T-FIELD)", Run: func(e *Engine) {
 				cs := e.coreModel()
@@ -140,7 +143,7 @@ func init() {
 					onSearch := searchReach[fn]
 					var bad []string
 					for _, o := range os {
-						if !keyOriginAllowed(o, onSearch) {
+						if !keyOriginAllowed(o, onSearch, s.kind) {
 							bad = append(bad, o)
 						}
 					}
